@@ -21,6 +21,9 @@ TRANSPARENT_CALLS = {
     "core::convert::Into::into": 0, "core::convert::From::from": 0,
     "core::clone::Clone::clone": 0,
     "core::hint::must_use": 0,
+    # a layout padded to its own alignment stands for "the caller's layout" in provenance questions (which block, which
+    # parameter); that the padding is there at all is checked by a rule of its own (C12.R6)
+    "core::alloc::Layout::pad_to_align": 0,
     "polyfill::hint::likely": 0, "polyfill::hint::unlikely": 0, "bumping::likely": 0, "bumping::unlikely": 0,
     "core::ops::Deref::deref": 0, "core::ops::DerefMut::deref_mut": 0,
     "core::borrow::Borrow::borrow": 0, "core::convert::AsRef::as_ref": 0,
@@ -512,7 +515,10 @@ class Body:
         if tp is None and f.get("res"):
             tp = TRANSPARENT_CALLS.get(f["res"]["path"])
         if tp is not None and len(t["args"]) > tp:
-            return self.prov_operand(t["args"][tp], site, depth, stack)
+            inner = self.prov_operand(t["args"][tp], site, depth, stack)
+            if path.endswith("Layout::pad_to_align") and inner[0] == "ref":
+                return inner[1]             # takes &self, returns the (padded) layout by value
+            return inner
         args = tuple(self.prov_operand(a, site, depth, stack) for a in t["args"])
         gargs = tuple(a.get("s", "") for a in f.get("args", []) if a["k"] != "lt")
         return ("call", path, args, gargs, (site.bb,))
